@@ -267,7 +267,9 @@ def evaluate(case):
                     break
                 for key, exp, tol in pairs:
                     got = np.asarray(ows[name].output[key].loc[s_].values, dtype=float)
-                    ok = got.shape == exp.shape and np.allclose(got, exp, rtol=tol, atol=tol * 1e-3, equal_nan=True)
+                    # stagnant pipes carry round-off flows of ~1e-11 kg/s that change with the last bit of the written value
+                    ok = got.shape == exp.shape and np.allclose(got, exp, rtol=tol, atol=1e-9 if "mdot" in key else tol * 1e-3,
+                                                                equal_nan=True)
                     if not ok:
                         f.append(Finding("timeseries", "C20.timeseries.logged_step." + ("power" if name == "power" else "gas"),
                                          {"step": s_, "net": name, "variable": key, "logged": list(got)[:6], "standalone": list(exp)[:6]}))
